@@ -6,6 +6,8 @@
    convert_types_from_metapreprocessor, convert_types_from_commandarguments,
    ProjectSettings.__init__/__post_init__/normalise_paths, load_toml_settings,
    load_markdown_settings; ford/__init__.py load_settings, parse_arguments.
+   __post_init__ includes the loop that converts or rejects the values of bool / int / str options
+   (check_scalars); list, key/value-table, file-type and path options are wrapped / used as they come.
    The field table, OPTION_SEPARATORS, INTRINSIC_MODS, LICENSES come from Gen/Schema.v.
    Trusted/outside: tomllib (the model takes parsed TOML values), argparse (the model takes the
    parsed destinations), pathlib/os.path (lexical model, no symlinks, no '$'), strftime and the
@@ -545,8 +547,40 @@ Definition filetypes_step (st : settings) : res settings :=
   | _ => Ok st
   end.
 
+(* the declared types whose values the loop of __post_init__ checks: bool, int, str and their
+   Optional forms *)
+Definition is_scalar_ty (t : tyclass) : bool :=
+  match t with TBool | TInt | TOptInt | TStr | TOptStr => true | _ => false end.
+
+(* one field of that loop (values of fpm.toml and --config arrive as written): a value of the
+   declared type, or None, passes; a flag or number given as text is converted as the project file
+   converts it (convert_setting on the one-element list); anything else is rejected with a
+   ValueError that names the option.  Fields of the other declared types are not looked at. *)
+Definition check_scalar (t : tyclass) (k : str) (v : pv) : res pv :=
+  match t with
+  | TBool | TInt | TOptInt | TStr | TOptStr =>
+    if same_type t v then Ok v
+    else match v with
+    | PNone => Ok v
+    | PStr _ => convert_setting t k (PList [v])
+    | _ => Err (s "ValueError") k true
+    end
+  | _ => Ok v
+  end.
+
+(* the loop runs in field order: the first offending field raises *)
+Fixpoint check_scalars (tkvs : list (tyclass * (str * pv))) : res settings :=
+  match tkvs with
+  | [] => Ok []
+  | (t, (k, v)) :: r => do v' <- check_scalar t k v; do r' <- check_scalars r; Ok ((k, v') :: r')
+  end.
+
+(* __post_init__ up to the extra_filetypes conversion *)
+Definition post_checked (st0 : settings) : res settings :=
+  do st <- check_scalars (combine field_types (wrap_lists (set_relative st0))); post_core st.
+
 Definition post_init (st0 : settings) : res settings :=
-  do st <- post_core (wrap_lists (set_relative st0)); filetypes_step st.
+  do st <- post_checked st0; filetypes_step st.
 
 (* ProjectSettings applied to the keyword arguments kw *)
 Definition construct (kw : list (str * pv)) : res settings :=
@@ -863,3 +897,19 @@ Definition effective_toml (i : input) (kvs : list (str * aval)) : res (settings 
   effective (mkinput [] (Some (enc_toml_all kvs)) None (i_cli i) (i_cwd i) (i_dir i) (i_ford i)).
 Definition effective_config (i : input) (kvs : list (str * aval)) : res (settings * list str) :=
   effective (mkinput [] None (Some (enc_toml_all kvs)) (i_cli i) (i_cwd i) (i_dir i) (i_ford i)).
+
+(* one table of raw values in fpm.toml / in --config, or the lines of a project file, everything
+   else equal *)
+Definition with_md (i : input) (lines : list str) : input :=
+  mkinput lines None None (i_cli i) (i_cwd i) (i_dir i) (i_ford i).
+Definition with_toml (i : input) (kv : list (str * pv)) : input :=
+  mkinput [] (Some kv) None (i_cli i) (i_cwd i) (i_dir i) (i_ford i).
+Definition with_config (i : input) (kv : list (str * pv)) : input :=
+  mkinput [] None (Some kv) (i_cli i) (i_cwd i) (i_dir i) (i_ford i).
+
+(* an option that can be given at all (a field of the schema that __init__ accepts) *)
+Definition settable (k : str) : bool :=
+  match find_field project_schema k with Some f => f_init f | None => false end.
+(* the declared types for which text is converted: flags and numbers *)
+Definition is_conv_ty (t : tyclass) : bool :=
+  match t with TBool | TInt | TOptInt => true | _ => false end.
